@@ -72,7 +72,7 @@ theorem pairOk_sound (cs gs : List Rec) (p : Pairing) (h : pairOk cs gs p = true
 build, incl. the `PARAM` literal) is either paired with a C record or explicitly listed as Go-only:
 a new shared type cannot appear without a pairing. -/
 theorem every_go_type_classified :
-    ∀ r ∈ goRecsFor n!"amd64", pairing.any (fun p => p.go == r.name) || goOnlyTypes.contains r.name = true := by
+    ∀ r ∈ goRecsFor n!"amd64", (pairing.any (fun p => nameEq p.go r.name) || nameMem r.name goOnlyTypes) = true := by
   decide
 
 /-- Every map of the C program that the Go side holds a handle for (`bpfMaps`) and whose contents it
@@ -82,12 +82,18 @@ theorem shared_maps_are_paired : ∀ m ∈ Gen.cMaps, mapOk m = true := by decid
 
 theorem go_handles_exist_in_c :
     (∀ t ∈ Gen.goMapTags, (findMap t Gen.cMaps).isSome = true)
-    ∧ (∀ t ∈ Gen.goProgTags, Gen.cProgs.contains t = true)
-    ∧ (∀ t ∈ Gen.goVarTags, Gen.cGlobals.any (fun g => g.1 == t) = true) := by decide +kernel
+    ∧ (∀ t ∈ Gen.goProgTags, nameMem t Gen.cProgs = true)
+    ∧ (∀ t ∈ Gen.goVarTags, Gen.cGlobals.any (fun g => nameEq g.1 t) = true) := by decide +kernel
 
 /-- Key and value widths used by the control plane for scalar-keyed maps equal the C definitions; in
 particular the LPM key size declared by `unused_lpm_type` is the size of `struct lpm_key` = `_bpfLpmKey`. -/
 theorem scalar_map_io_widths : ∀ x ∈ goScalarIO, scalarIOOk x = true := by decide +kernel
+
+/-- Every call site `<map>.Update/Lookup/Delete(key, value)` found in package control passes a key /
+value whose static type has the size the C map declares (regenerated from the Go sources). -/
+theorem go_map_calls_match_c : ∀ c ∈ Gen.goMapCalls, mapCallOk c = true := by decide +kernel
+
+example : Gen.goMapCalls.length > 10 := by decide +kernel
 
 /-! ## B. Enumerations, constants, limits -/
 
@@ -104,7 +110,7 @@ theorem generator_values_agree (s : Spec) :
 /-- … and that value is the index in the spec for match types (so inserting a match type in the
 middle renumbers both sides identically). -/
 theorem generator_match_type_index (s : Spec) (i : Nat) (n : Name) (h : s.matchTypes[i]? = some n) :
-    (genGo s).matchTypes[i]? = some (n!"MatchType_" ++ n, i) ∧ (genC s).matchTypes[i]? = some (n!"MatchType_" ++ n, i) := by
+    (genGo s).matchTypes[i]? = some (nameCat n!"MatchType_" n, i) ∧ (genC s).matchTypes[i]? = some (nameCat n!"MatchType_" n, i) := by
   simp [genGo, genC, enumFrom_getElem?, h]
 
 example : (genGo Gen.specData).matchTypes.length > 3 := by decide +kernel
@@ -257,11 +263,11 @@ listener is the key `assign_listener` looks up for a packet of that kind; the th
 distinct. -/
 theorem listen_key_agree (l4proto : Nat) (ethIsV6 : Bool) :
     cListenKey l4proto ethIsV6 = goListenKey (listenerOfPacket l4proto ethIsV6) := by
-  have z : cConstNat n!"zero_key" = goConstNat n!"consts.ZeroKey" := by decide +kernel
-  have o : cConstNat n!"one_key" = goConstNat n!"consts.OneKey" := by decide +kernel
-  have t : cConstNat n!"two_key" = goConstNat n!"consts.TwoKey" := by decide +kernel
+  have z : cConstNat n!"zero_key" = goListenKey .tcp4 := by decide +kernel
+  have o : cConstNat n!"one_key" = goListenKey .udp := by decide +kernel
+  have t : cConstNat n!"two_key" = goListenKey .tcp6 := by decide +kernel
   unfold cListenKey listenerOfPacket
-  by_cases h : l4proto = 6 <;> cases ethIsV6 <;> simp [h, goListenKey, z, o, t]
+  by_cases h : l4proto = 6 <;> cases ethIsV6 <;> simp [h, z, o, t]
 
 theorem listen_keys_distinct :
     goListenKey .tcp4 ≠ goListenKey .tcp6 ∧ goListenKey .tcp4 ≠ goListenKey .udp ∧ goListenKey .tcp6 ≠ goListenKey .udp := by
